@@ -9,8 +9,10 @@ unsplit solution.  A false witness names the first mismatch (a row over variable
 differs, …): either something couples the intervals, or the split set-up lost / changed something.
 """
 import json
+from fractions import Fraction
 
 from ..impl import problem_json
+from ..lean import fs
 
 THEOREMS_C14_SPLIT = [
     ('EAO.Properties.C14', 'EAO.C14.split_witness_feasible',
@@ -81,6 +83,158 @@ def witness_check(rec, rs, drv):
     return {'witness': bool(ans['witness']), 'reason': str(ans['reason'])}
 
 
+THEOREMS_C14_LE = [
+    ('EAO.Properties.C14', 'EAO.C14.split_le_witness_feasible',
+     'per-instance one-sided witness (same cost, unsplit bounds not tighter, every unsplit row an exactly checked combination of interval rows with sign-correct multipliers) '
+     '=> every feasible point of the split problem, transported, is feasible for the unsplit problem (with and without integrality) with the same value'),
+    ('EAO.Properties.C14', 'EAO.C14.split_le_unsplit',
+     'under the one-sided witness every upper bound of the unsplit values bounds the split values: split never exceeds unsplit'),
+    ('EAO.Properties.C14', 'EAO.C14.split_le_unsplit_relaxed', 'the same for the relaxations (LP case)'),
+    ('EAO.Properties.C14', 'EAO.C14.split_solution_le_unsplit',
+     'under the one-sided witness the concatenated interval solutions (np.hstack), transported, satisfy every restriction and bound of the unsplit problem on the original grid, '
+     'are worth the sum of the interval values there, and that sum is below every upper bound of the unsplit value (LP)'),
+    ('EAO.Properties.C14', 'EAO.C14.split_solution_le_unsplit_bool', 'the same with boolean variables'),
+]
+
+
+# ------------------------------------------------------------------ one-sided witness: search for the multipliers
+def _norm_row(coeffs, ren=None, off=0):
+    d = {}
+    for j, v in coeffs:
+        jj = ren[j] if ren is not None else off + j
+        d[jj] = d.get(jj, Fraction(0)) + Fraction(v)
+    return {j: v for j, v in d.items() if v != 0}
+
+
+def _kind(k):
+    return 'E' if k in ('S', 'N') else k
+
+
+def _le_search(a, b, cand, B):
+    """multipliers lam_k (k in cand) with the signs of the direction <= such that sum lam_k row_k has the coefficients
+    `a` and a right-hand side <= b (minimal right-hand side, HiGHS); None if there are none"""
+    import numpy as np
+    from scipy.optimize import linprog
+    if not cand:
+        return None
+    cols = sorted(set(a) | set(j for k in cand for j in B[k][0]))
+    ci = {j: i for i, j in enumerate(cols)}
+    Aeq = np.zeros((len(cols), len(cand)))
+    for q, k in enumerate(cand):
+        for j, v in B[k][0].items():
+            Aeq[ci[j], q] = float(v)
+    beq = np.array([float(a.get(j, 0)) for j in cols])
+    obj = np.array([float(B[k][1]) for k in cand])
+    bounds = [(0, None) if B[k][2] == 'U' else ((None, 0) if B[k][2] == 'L' else (None, None)) for k in cand]
+    try:
+        res = linprog(obj, A_eq=Aeq, b_eq=beq, bounds=bounds, method='highs')
+    except Exception:
+        return None
+    if res.status != 0:
+        return None
+    if res.fun > float(b) + 1e-7 * max(1.0, abs(float(b))):
+        return None
+    out = {}
+    for q, k in enumerate(cand):
+        if abs(res.x[q]) > 1e-9:
+            out[k] = Fraction(float(res.x[q])).limit_denominator(10 ** 6)
+    return out
+
+
+def _le_multipliers(a, b, B, by_coeffs, by_col):
+    """sparse multipliers {k: Fraction} certifying  a.x <= b  from the block rows B = [(coeffs, rhs, kind)], or None"""
+    key = tuple(sorted(a.items()))
+    # the row occurs verbatim (possibly with a smaller right-hand side)
+    for k in by_coeffs.get(key, []):
+        if B[k][2] in ('U', 'E') and B[k][1] <= b:
+            return {k: Fraction(1)}
+    neg = tuple(sorted((j, -v) for j, v in a.items()))
+    for k in by_coeffs.get(neg, []):
+        if B[k][2] in ('L', 'E') and -B[k][1] <= b:
+            return {k: Fraction(-1)}
+    supp = set(a)
+    touching = sorted(set(k for j in supp for k in by_col.get(j, [])))
+    inside = [k for k in touching if set(B[k][0]) <= supp]
+    lam = _le_search(a, b, inside, B)
+    if lam is None and len(touching) > len(inside):
+        lam = _le_search(a, b, touching, B)
+    if lam is None:
+        # one more ring of rows around the support
+        cols2 = set(j for k in touching for j in B[k][0])
+        wider = sorted(set(k for j in cols2 for k in by_col.get(j, [])))
+        if len(wider) > len(touching) and len(wider) <= 2000:
+            lam = _le_search(a, b, wider, B)
+    return lam
+
+
+def le_multipliers(U, Ps, perm):
+    """for every row of the unsplit problem `U` (problem_json) the sparse multipliers [[position, 'p/q'], …] over the
+    rows of the block sum of `Ps` that combine to it (positions >= number of block rows: the second list of an equality
+    row); rows for which the search finds nothing get an empty list.  Returns (lams_sparse, number of rows not found)"""
+    n = len(U['c'])
+    inv = [None] * n
+    for j, i in enumerate(perm):
+        inv[i] = j
+    B = []
+    off = 0
+    for P in Ps:
+        for r in P['rows']:
+            B.append((_norm_row(r['coeffs'], off=off), Fraction(r['rhs']), _kind(r['kind'])))
+        off += len(P['c'])
+    m = len(B)
+    by_coeffs, by_col = {}, {}
+    for k, (cs, _, _) in enumerate(B):
+        by_coeffs.setdefault(tuple(sorted(cs.items())), []).append(k)
+        for j in cs:
+            by_col.setdefault(j, []).append(k)
+    out, missing = [], 0
+    for r in U['rows']:
+        a = _norm_row(r['coeffs'], ren=inv)
+        b = Fraction(r['rhs'])
+        kind = _kind(r['kind'])
+        neg_a = {j: -v for j, v in a.items()}
+        le = _le_multipliers(a, b, B, by_coeffs, by_col) if kind in ('U', 'E') else None
+        ge = _le_multipliers(neg_a, -b, B, by_coeffs, by_col) if kind in ('L', 'E') else None
+        if ge is not None:
+            ge = {k: -v for k, v in ge.items()}          # a.x >= b  <=>  (-a).x <= -b with the multipliers negated
+        if kind == 'U':
+            ent = le
+        elif kind == 'L':
+            ent = ge
+        elif le is None or ge is None:
+            ent = None
+        elif le == ge:
+            ent = le
+        else:
+            ent = dict(le)
+            ent.update({m + k: v for k, v in ge.items()})
+            if not any(k >= m for k in ent):
+                ent[2 * m - 1] = Fraction(0)               # keeps the two-list form recognisable
+        if ent is None:
+            missing += 1
+            ent = {}
+        out.append([[int(k), fs(v)] for k, v in sorted(ent.items())])
+    return out, missing
+
+
+def le_witness_check(rec, rs, drv):
+    """{'witness': True | False | None, 'reason': str}: the exact evaluation of `EAO.splitLeWitness` on the unsplit
+    problem, the interval problems, the matching of the variables and multipliers found numerically (LP per unsplit
+    row over the interval rows around it, rounded to rationals with denominators <= 10^6) — the search is not trusted,
+    the compiled model checks every combination exactly.  None when the mappings give no matching."""
+    perm = perm_from_mappings(rs, rec)
+    if perm is None:
+        return {'witness': None, 'reason': 'no matching of the variables: the first mapping rows of the split and the unsplit problem differ'}
+    U = problem_json(rec['op'])
+    Ps = [problem_json(o) for o in rs['op'].ops]
+    lams, missing = le_multipliers(U, Ps, perm)
+    ans = drv.ok({'op': 'split_le_witness', 'problem': U, 'intervals': Ps, 'perm': [int(i) for i in perm], 'lams_sparse': lams})
+    reason = str(ans['reason'])
+    if not ans['witness'] and missing:
+        reason += ' [the multiplier search found nothing for %d row(s)]' % missing
+    return {'witness': bool(ans['witness']), 'reason': reason, 'rows_without_multipliers': missing}
+
+
 # ------------------------------------------------------------------ development driver / self-test
 class ScratchDriver:
     """development driver: a scratch `Main.lean` run by the Lean interpreter, or a compiled binary"""
@@ -113,7 +267,7 @@ class ScratchDriver:
             self.p.kill()
 
 
-def selftest(stream, n, drv, seed0=1, verbose=True):
+def selftest(stream, n, drv, seed0=1, verbose=True, le=False):
     """run `n` generated cases of one stream of props.c14 against the real code; returns the statistics"""
     from ..props import c14
     from .. import pf
@@ -143,7 +297,7 @@ def selftest(stream, n, drv, seed0=1, verbose=True):
                 st['setup_error'] += 1
                 continue
             st['cases'] += 1
-            w = witness_check(rec, rs, drv)
+            w = le_witness_check(rec, rs, drv) if le else witness_check(rec, rs, drv)
             info = {'seed': seed, 'tag': tag, 'assets': [a['type'] for a in scn['assets']], 'interval': interval,
                     'intervals': len(rs['op'].ops), 'n': len(rec['op'].c), 'reason': w['reason']}
             if w['witness'] is True:
@@ -168,7 +322,8 @@ if __name__ == '__main__':
     stream = sys.argv[2] if len(sys.argv) > 2 else 'uncoupled'
     n = int(sys.argv[3]) if len(sys.argv) > 3 else 50
     seed0 = int(sys.argv[4]) if len(sys.argv) > 4 else 1
+    le = len(sys.argv) > 5 and sys.argv[5] == 'le'
     drv = ScratchDriver(path)
-    st = selftest(stream, n, drv, seed0=seed0)
+    st = selftest(stream, n, drv, seed0=seed0, le=le)
     drv.close()
     print(json.dumps({k: v for k, v in st.items() if k not in ('false_cases', 'none_cases')}))
